@@ -9,8 +9,8 @@ import vlib
 import p_val
 from vlib import ToolError, log
 
-FAMILIES_QUICK = [("prim", 1), ("object", 1), ("tuple", 1), ("union", 1), ("tpl", 1), ("format", 1), ("nonjson", 1)]
-FAMILIES_THOROUGH = [("prim", 2), ("object", 2), ("tuple", 2), ("union", 2), ("tpl", 2), ("format", 2), ("nonjson", 2)]
+FAMILIES_QUICK = [("prim", 1), ("object", 1), ("tuple", 1), ("union", 1), ("tpl", 1), ("format", 1), ("nonjson", 1), ("util", 1)]
+FAMILIES_THOROUGH = [("prim", 2), ("object", 2), ("tuple", 2), ("union", 2), ("tpl", 2), ("format", 2), ("nonjson", 2), ("util", 2)]
 
 CTXCFGS = [
     {"name": "defs", "refPathTemplate": "#/$defs/{name}", "definitionContainerKey": "$defs"},
@@ -151,7 +151,7 @@ def run(prop, tier):
     recs = []
     for i, c in enumerate(cases):
         cr = c["_comp"]
-        rec = {"ev": "prog", "id": i, "ty": c["ty"], "env": c["env"], "outcome": cr["outcome"], "load": "none",
+        rec = {"ev": "prog", "id": i, "ty": c.get("nty", c["ty"]), "env": c.get("nenv", c["env"]), "outcome": cr["outcome"], "load": "none",
                "docs": [], "flat": {"ok": False, "s": {"k": "undef"}, "msg": ""}, "ctx": [], "pats": [], "jsvflat": []}
         o = obs.get(i)
         if cr["outcome"] == "code" and o is not None:
